@@ -59,6 +59,14 @@ PROPS = {
         "rule": "8 client goroutines with own storages running 200-op scripts concurrently (workers 1..64, both commits, ledger jitter, GOMAXPROCS 2/8/16) vs alone; parallel preload 1..64 workers vs sequential; the same stream again in a -race build",
         "explanation": "Theorems about the message-passing model of the worker pools: pool_results_perm, pool_results_bounded (result channel never over capacity), pool_terminates, parallel_commit_sequential_equal, parallel_preload_sequential_equal. Oracle: results equal to sequential/alone runs; zero race-detector reports.",
     },
+    "C18": {
+        "streams": ["array", "mapcollide", "callbackfail"], "driver": {"array": "array", "mapcollide": "map"}, "level": "proof",
+        "trusted_base": LEAN_TB, "assumptions": ARRAY_ASSUME + [
+            "the model's operations return Except: a rejected request carries no new state; what ties this to the code is the per-operation comparison of the net storage effect ('EFF -' after every rejected request) and of the periodic full dumps",
+            "nested handles (ancestors untouched by a rejected child request) are covered by C10's stream, not by these theorems"],
+        "rule": "array stream: out-of-range get/set/insert/remove at every state (profile 3); map collision stream: absent-key removals and collision-limit refusals (limits 0..3) at every state; callback stream: comparator failing at call 1..4, hash-input provider failing, ledger reads failing; distinct = distinct (request kind, error kind) pairs + programs",
+        "explanation": "Theorems: arg_error_category / model_error_categories (by decide over the table regenerated from errors.go), callback_failure_is_external (model of wrapErrorfAsExternalErrorIfNeeded), reject_is_noop, history_with_rejections_same_state. Oracle: errors.As category, no SlabStorage call during a rejected request, dump and Deltas() unchanged.",
+    },
     "C20": {
         "streams": ["health"], "driver": {"health": "health"}, "level": "proof",
         "trusted_base": LEAN_TB, "assumptions": HEALTH_ASSUME,
